@@ -146,6 +146,9 @@ func (g *Gen) Emit(line string, nontrivial bool, tags ...string) string {
 			g.st.Distinct++
 		}
 	}
+	if mirrorOps[op] {
+		g.Emit("g"+line, false, "generated-code")
+	}
 	if g.nsampl < 12 && (g.st.Ops%97 == 1 || g.st.Ops < 4) && len(line) < 400 {
 		g.st.Samples = append(g.st.Samples, line+" => "+out)
 		g.nsampl++
@@ -231,4 +234,14 @@ func atoi64(s string) int64 {
 		panic("bad int " + s)
 	}
 	return n
+}
+
+// mirrorOps: ops that are also run (as g<op>) against the Lean code regenerated from source by go2lean, which
+// validates the translator on every input the hand model is validated on.
+var mirrorOps = map[string]bool{}
+
+func mirror(ops ...string) {
+	for _, o := range ops {
+		mirrorOps[o] = true
+	}
 }
